@@ -439,12 +439,18 @@ class Parser:
             self.i += 1
             self.eat("[")
             depth = 1
+            start = self.i
             while depth:
                 vv = self.peek()[1]
                 depth += vv == "["
                 depth -= vv == "]"
                 self.i += 1
-            return self.statement()
+            attr = "".join(t[1] for t in self.t[start:self.i - 1])
+            st = self.statement()
+            if attr.startswith("cfg(") and not attr.startswith("cfg(not(test"):
+                # a statement compiled only under a configuration: the translator must decide what that means
+                return ("cfg", attr, st)
+            return st
         if v == "let":
             self.i += 1
             pat = self.pattern()
